@@ -38,6 +38,9 @@ def gen_inputs(rng, thorough):
     ins["rand40"] = rnd(40, 1, 12)
     ins["prefix130"] = rnd(30, 1, 6, b"p" * 130)
     ins["short1"] = sorted(set(bytes([c]) for c in rng.sample(list(alpha), 25)))
+    # blocks that grow: a few long strings first, then many short ones (later blocks hold more strings than
+    # earlier ones built by the same worker)
+    ins["growing"] = sorted(set([b"A" + bytes([65 + k]) * 90 for k in range(8)] + rnd(260, 2, 3, b"z")))
     if thorough:
         ins["rand400"] = rnd(400, 1, 30)
         ins["mixed"] = sorted(set(rnd(60, 1, 3) + rnd(60, 100, 160, b"\xfe\xfe")))
